@@ -12,6 +12,8 @@
 (*                                 harness holds on to the value as returned *)
 (*   rt    {via, v, enc, out, back, keep} v encoded (enc, informational) and *)
 (*                                 decoded again into the variable           *)
+(*   scan  {kind, tok, out, v, inmut} sql Scan of a source of that kind      *)
+(*   hang  / crash                 never explained                           *)
 (*   fresh {cur}                   a new destination variable of the type    *)
 (*   final {vals}                  everything kept (decoded values, encoder  *)
 (*                                 outputs), exactly as returned, rendered   *)
@@ -44,6 +46,11 @@ TDec(e) ==
   /\ cur' = e.v /\ ty' = ty /\ last' = [op |-> "dec"]
   /\ held' = IF e.keep THEN Append(held, e.v) ELSE held
 
+TScan(e) ==
+  /\ e.inmut = FALSE
+  /\ ScanOK(ty, e.kind, e.tok, cur, e.out, e.v)
+  /\ cur' = e.v /\ ty' = ty /\ last' = [op |-> "scan"] /\ UNCHANGED held
+
 TRt(e) ==
   /\ RtOK(e.out, e.v, e.back)
   /\ cur' = e.back /\ ty' = ty /\ last' = [op |-> "rt"]
@@ -60,6 +67,7 @@ Consume ==
        CASE e.ev = "reset" -> TReset(e)
          [] e.ev = "dec"   -> TDec(e)
          [] e.ev = "rt"    -> TRt(e)
+         [] e.ev = "scan"  -> TScan(e)
          [] e.ev = "fresh" -> TFresh(e)
          [] e.ev = "final" -> TFinal(e)
          [] OTHER -> FALSE
